@@ -606,13 +606,45 @@ func newNode(opts []any) *flyt.NodeBuilder {
 
 // callBuilder calls the chained builder method `name` on b with one argument if b has such a
 // method (the plain NodeBuilder's batch settings are a convenience an implementation may drop).
-func callBuilder(b any, name string, arg any) bool {
+// It returns what the method returned (builders may be immutable: every With... returns a copy).
+func callBuilder[B any](b B, name string, arg any) (B, bool) {
 	m := reflect.ValueOf(b).MethodByName(name)
-	if !m.IsValid() || m.Type().NumIn() != 1 || !reflect.TypeOf(arg).AssignableTo(m.Type().In(0)) {
-		return false
+	if !m.IsValid() {
+		return b, false
 	}
-	m.Call([]reflect.Value{reflect.ValueOf(arg)})
-	return true
+	mt := m.Type()
+	fixed := mt.NumIn()
+	if mt.IsVariadic() {
+		fixed-- // optional trailing arguments are left out
+	}
+	if fixed != 1 || !reflect.TypeOf(arg).AssignableTo(mt.In(0)) {
+		return b, false
+	}
+	out := m.Call([]reflect.Value{reflect.ValueOf(arg)})
+	if len(out) == 1 {
+		if nb, ok := out[0].Interface().(B); ok {
+			return nb, true
+		}
+	}
+	return b, true
+}
+
+// intGetter / strGetter read a getter by name if the object has one (batch settings need not be
+// readable on a plain node's builder).
+func intGetter(obj any, name string) (int, bool) {
+	m := reflect.ValueOf(obj).MethodByName(name)
+	if !m.IsValid() || m.Type().NumIn() != 0 || m.Type().NumOut() != 1 || !m.Type().Out(0).ConvertibleTo(reflect.TypeOf(0)) {
+		return 0, false
+	}
+	return int(m.Call(nil)[0].Convert(reflect.TypeOf(0)).Int()), true
+}
+
+func strGetter(obj any, name string) (string, bool) {
+	m := reflect.ValueOf(obj).MethodByName(name)
+	if !m.IsValid() || m.Type().NumIn() != 0 || m.Type().NumOut() != 1 {
+		return "", false
+	}
+	return fmt.Sprint(m.Call(nil)[0].Interface()), true
 }
 
 func embeddedBase(obj any) *flyt.BaseNode {
